@@ -7,7 +7,7 @@ CONSTANTS
   ValS = {"unset", "null", "v1"}
   ValT = {"unset"}
   ValU = {"unset", "v1"}
-  BadU = {"none", "wrongtype"}
+  BadU = {"none", "wrongtype", "wrongnull"}
   GenDepth = 0
 INVARIANT ImplRefinesReq
 INVARIANT ReqWellFormed
